@@ -179,6 +179,7 @@ theorem find_okI (fuel : Nat) (k : Int) (ops : List (Op R)) (hops : HistOK ([] :
   obtain ⟨⟨bd, hb⟩, hp⟩ := run_okI fuel k ops hops
   exact (tree_find_perm bd _ hb pr f hpr).trans (hp.filter f)
 
+omit H in
 /-- the one-bounds-function contract `OpOK` is a special case of the history-dependent one -/
 theorem histOK_of_opOK (bounds : Nat → R) (ops : List (Op R)) (hops : ∀ op ∈ ops, OpOK bounds op)
     (s : List (Item R)) (hs : ∀ x ∈ s, x.rect = bounds x.id) : HistOK s ops := by
